@@ -458,6 +458,15 @@ class World:
         # (del obj.missing: the statement is ambiguous - "exactly like del obj['k']" (KeyError) vs "missing key ->
         #  AttributeError"; the pinned tree raises KeyError, which is accepted; see DESIGN §7)
         pre = self.pre_op(r, ob, h, name, mut, buffered)
+        if st.get("fault") is not None:
+            return self.faulted_op(st, r, ob, h, name, args, trial, mres)
+        if st.get("rejected"):
+            lres_raw = self.lib_op(h.node, name, args, attr)
+            if not isinstance(lres_raw, M.Raised) or not isinstance(lres_raw.exc, (TypeError, ValueError)):
+                raise Violation("accepted_forbidden", f"{name}{jsonable(st.get('args', []))} was not rejected with TypeError/ValueError: {lres_raw!r}")
+            self.stat("ops")
+            self.post_op(r, ob, h, name, False, buffered, pre, changed=False, lres=lres_raw)
+            return
         lres_raw = self.lib_op(h.node, name, args, attr)
         lres = M.result_plain(name, lres_raw, self.SC)
         self.stat("ops")
@@ -501,6 +510,10 @@ class World:
                 self.revalidate(r.rid)
             st["_diverged"] = True
         self.post_op(r, ob, h, name, mut and not lib_raised, buffered, pre, changed=changed, lres=lres)
+        if "children" in self.oracles and name == "getitem" and not lib_raised and not mod_raised and h.state == "attached" \
+                and isinstance(mres, (dict, list)) and not isinstance(args[0], slice) and not isinstance(lres_raw, self.SC):
+            raise Violation("child_not_synced", f"{name}{jsonable(st.get('args', []))} on {h.kind} at {h.path} returned a plain "
+                            f"{type(lres_raw).__name__}: mutating it would not persist", step=st)
         # retain a returned child as a new handle
         if st.get("keep") and isinstance(lres_raw, self.SC) and not lib_raised:
             if name == "getitem":
@@ -524,6 +537,49 @@ class World:
             elif st.get("hid_new") is not None:
                 while len(self.handles) <= st["hid_new"]:
                     self.handles.append(None)
+
+    def faulted_op(self, st, r, ob, h, name, args, trial, mres):
+        """Fault-injecting configuration: an I/O error is injected at one seam call of this operation. The operation
+        may fail and may or may not have been applied; it must never leave wrong data (deliberately narrow relaxation)."""
+        self.seams.arm({"at": st["fault"]["at"], "exc": tuple(st["fault"]["exc"])})
+        try:
+            lres_raw = self.lib_op(h.node, name, args, st.get("attr", False))
+        finally:
+            fired = bool(self.seams.fired)
+            del self.seams.fired[:]
+            self.seams.disarm()
+        self.stat("ops")
+        if not fired:
+            self.stat("fault_not_reached")
+        else:
+            self.stat("fault_io_error")
+            self.probe("fault_fired")
+        obs = self.observe(r)
+        exp_old = ABSENT if r.disk is None else r.disk
+        raised = isinstance(lres_raw, M.Raised)
+        new_ok = trial is not None and not isinstance(mres, M.Raised)
+
+        def eq(a, b):
+            return (a is ABSENT and b is ABSENT) or (a is not ABSENT and b is not ABSENT and same(a, b))
+        is_old = eq(obs, exp_old) or (obs is not ABSENT and exp_old is ABSENT and same(obs, r.model))
+        is_new = new_ok and obs is not ABSENT and same(obs, trial)
+        if is_new:
+            r.model, r.disk, r.exists = trial, deep(trial), True
+        elif is_old:
+            if not raised and new_ok and not same(trial, r.model) and M.is_mutator(h.kind, name):
+                raise Violation("backend!=model", f"{name}{jsonable(st.get('args', []))} returned normally (fault {st['fault']}, "
+                                f"{'fired' if fired else 'not reached'}) but the backend still holds the previous content")
+            if obs is not ABSENT:
+                r.disk, r.exists = deep(obs), True
+        else:
+            raise Violation("wrong_data_after_fault", f"{name}{jsonable(st.get('args', []))} with {st['fault']} "
+                            f"({'raised ' + repr(lres_raw) if raised else 'returned'}): backend holds {jsonable(obs)!r}, neither the "
+                            f"previous content {jsonable(exp_old)!r} nor the new one {jsonable(trial)!r}")
+        # handles may be stale in arbitrary ways after a failed save: drop nested ones of this resource
+        for x in self.handles:
+            if x is not None and x.path and self.objs[x.oid].rid == r.rid and x.state == "attached":
+                x.state = "dropped"
+        self.revalidate(r.rid)
 
     def _model_operands(self, enc, margs):
         """Replace {"$handle": i} operands by the model's plain value of that handle (for comparisons)."""
